@@ -382,6 +382,10 @@ func minimallyEncode(data []byte) []byte {
 		return data
 	}
 
+	// the loop below rewrites bytes: work on a copy, the operand may be shared
+	// with other stack items or with the script it was pushed from
+	data = append([]byte(nil), data...)
+
 	for i := len(data) - 1; i > 0; i-- {
 		if data[i-1] != 0 {
 			if data[i-1]&0x80 != 0 {
